@@ -13,7 +13,7 @@
             'size == min(L, N), element k equals list[k] for every k < size (excess input dropped, prefix kept), slots from size on RAW, each element copy-constructed '
             'exactly once over RAW storage; the list is only read; nothing outside the exact-size storage is written '
             '[known finding C14_ilist_overflow carved out: L > N, where the constructor writes past _data[N]]',
- 'witness': {'unwind': 8},
+ 'witness': {'unwind': 8}, 'fallback': 'ghost-free',
  'assumptions': ['every list element is LIVE, instantiated at the ghost slot and at the element the loop reads', 'the object under construction starts with storage in which no element is alive',
                  'T = ELEM, N = CAP arbitrary in [1, 2^36], L in [0, 2^37]'],
 } @*/
